@@ -41,12 +41,20 @@ Theorem C16_setters : forall s w k v wait,
   snd (cset s w k v wait) = [(UAPI_AUDIT_SET, UAPI_REQ_ACK, ustatus_bytes (uapi_setter_status k v))].
 Proof. exact setter_sends. Qed.
 
+(* GetStatus sends exactly one request: AUDIT_GET with REQUEST|ACK and no payload, whatever happens next *)
+Theorem C16_get_status_request : forall s w, snd (get_status s w) = [(UAPI_AUDIT_GET, UAPI_REQ_ACK, [])].
+Proof.
+  intros s w. unfold get_status. destruct (do_send s w) as [[[s1 w1] sq] f]. destruct f; [reflexivity|].
+  destruct (reply sq (rscript w1)) as [r rest]. destruct (check_ack r); [reflexivity|]. destruct (reply sq rest). reflexivity.
+Qed.
+
 (* FromWireFormat: io.ErrUnexpectedEOF below the 2.6.32 size; otherwise the eleven words
    read at the kernel's offsets, zero where the buffer ends, trailing bytes ignored *)
 Theorem C16_from_wire : forall buf,
   status_from_wire buf = if (N.of_nat (length buf) <? UAPI_MIN_AUDIT_STATUS) then None else Some (uapi_read_status buf).
 Proof. exact from_wire_spec. Qed.
 
+Print Assumptions C16_get_status_request.
 Print Assumptions C16_layout.
 Print Assumptions C16_constants.
 Print Assumptions C16_failure_modes_or_known_finding.
